@@ -1,7 +1,7 @@
 (* C06 - the Shapley value is the average marginal contribution over all orderings.
    Model: theories/Shapley.v (sh_player / sh_all = the two entry points of shapley.py, loop for loop;
    sh_perms / sh_marg / sh_perm_avg = the textbook definition).  Proofs: theories/ShapleyProofs.v. *)
-From ICG Require Import Prelude Bits Shapley ShapleyProofs.
+From ICG Require Import Prelude Bits Shapley ShapleyProofs ShapleyPermProofs.
 From Coq Require Import Permutation.
 Local Open Scope Q_scope.
 
@@ -18,13 +18,25 @@ Theorem perms_count n : Z.of_nat (length (sh_perms n)) = sh_fact n.
 Proof. exact (sh_perms_length n). Qed.
 Print Assumptions perms_count.
 
-(* MAIN: for EVERY real-valued game, for each player count 1..7 (reflection on linear forms, vm_compute).
-   The bound on n is part of the statement; a general-n proof needs the count of orderings in which the
-   predecessors of i are exactly S, = |S|!(n-|S|-1)!  (not done). *)
-Theorem shapley_is_perm_avg n i g :
+(* MAIN, for ALL n, every player, EVERY real-valued game: the value the code computes is the average marginal
+   contribution over all n! orderings.  (Counting argument: the orderings in which the predecessors of i are
+   exactly S are the concatenations of an ordering of S, i, and an ordering of the rest: |S|!(n-|S|-1)! of them,
+   theorem orderings_with_given_predecessors below.)  DESIGN 7 C06 promised this only for n <= 7. *)
+Theorem shapley_is_perm_avg n i g : (i < n)%nat -> sh_player n i g == sh_perm_avg n i g.
+Proof. exact (sh_is_perm_avg_all n i g). Qed.
+Print Assumptions shapley_is_perm_avg.
+
+Theorem orderings_with_given_predecessors n i S : (i < n)%nat -> bounded n S -> tb S i = false ->
+  Z.of_nat (length (filter (fun p => N.eqb (sh_pred p i) S) (sh_perms n))) = sh_contrib n (size n S).
+Proof. exact (sh_count_with_pred n i S). Qed.
+Print Assumptions orderings_with_given_predecessors.
+
+(* second, independent proof of the same statement for each player count 1..7, as planned in DESIGN 7 C06:
+   reflection on linear forms (coefficient vectors of n!*Shapley vs the sum over all n! orderings, vm_compute) *)
+Theorem shapley_is_perm_avg_by_reflection n i g :
   (1 <= n <= 7)%nat -> (i < n)%nat -> sh_player n i g == sh_perm_avg n i g.
 Proof. exact (sh_is_perm_avg n i g). Qed.
-Print Assumptions shapley_is_perm_avg.
+Print Assumptions shapley_is_perm_avg_by_reflection.
 
 (* the reflection principle used above, valid for all n *)
 Theorem eval_ext n l1 l2 : sh_lf_eqb n l1 l2 = true -> forall g, sh_eval g l1 == sh_eval g l2.
@@ -92,7 +104,7 @@ Definition c06_g3 : N -> Q := sh_game_of_list [0; 1; 2; 4; 3; 5; 7; 12].
 Example c06_values : map Qred (sh_all 3 c06_g3) = [8 # 3; 25 # 6; 31 # 6].
 Proof. vm_compute. reflexivity. Qed.
 Example c06_perm_avg_instance :
-  (1 <= 3 <= 7)%nat /\ (1 < 3)%nat /\ Qred (sh_perm_avg 3 1 c06_g3) = 25 # 6 /\ Qred (sh_player 3 1 c06_g3) = 25 # 6.
+  (1 < 3)%nat /\ Qred (sh_perm_avg 3 1 c06_g3) = 25 # 6 /\ Qred (sh_player 3 1 c06_g3) = 25 # 6.
 Proof. repeat split; try lia; vm_compute; reflexivity. Qed.
 Example c06_efficiency_instance : qsum (map (fun i => sh_player 3 i c06_g3) (seq 0 3)) == 12.
 Proof. rewrite shapley_efficiency. vm_compute. reflexivity. Qed.
